@@ -134,6 +134,10 @@ func (o Op) matchString() string {
 type Case struct {
 	Pipeline string `json:"pipeline"`
 	Ops      []Op   `json:"ops"`
+	// Via: the handle whose Callback() the registrations go through: "" = the opened handle,
+	// "session" = db.Session(&Session{}), "newdb" = db.Session(&Session{NewDB: true}), "tx" = a chain
+	// handle (db.Where(..)). All of them share the one set of pipelines of the opened handle.
+	Via string `json:"via,omitempty"`
 }
 
 func (c Case) String() string {
@@ -141,7 +145,11 @@ func (c Case) String() string {
 	for i, o := range c.Ops {
 		parts[i] = o.String()
 	}
-	return c.Pipeline + ": " + strings.Join(parts, "; ")
+	via := ""
+	if c.Via != "" {
+		via = " (registered through a " + c.Via + " handle)"
+	}
+	return c.Pipeline + via + ": " + strings.Join(parts, "; ")
 }
 
 // fired is one stub invocation: which name, which handler version (0 = the
@@ -158,6 +166,13 @@ type stepResult struct {
 	err      error
 	fired    []fired
 	firedErr []fired // fired list of the run whose statement carried an error from the start
+	// fired lists of further runs: dry-run statement, statement with a model, SkipHooks session
+	firedOther [][]fired
+}
+
+type execModel struct {
+	ID   uint
+	Name string
 }
 
 var errPre = errors.New("error set before the pipeline ran")
@@ -171,9 +186,19 @@ func apply(c Case) []stepResult {
 	stub := func(name string, version int) func(*gorm.DB) {
 		return func(*gorm.DB) { log = append(log, fired{name, version}) }
 	}
-	p := pipeline(db, c.Pipeline)
+	rdb := db
+	switch c.Via {
+	case "session":
+		rdb = db.Session(&gorm.Session{})
+	case "newdb":
+		rdb = db.Session(&gorm.Session{NewDB: true})
+	case "tx":
+		rdb = db.Where("1 = 1")
+	}
+	p := pipeline(rdb, c.Pipeline)
 	pv := reflect.ValueOf(p)
 	proc := p.(processor)
+	exec := pipeline(db, c.Pipeline).(processor) // statements always run through the opened handle
 	for _, b := range builtins[c.Pipeline] {
 		var e error
 		if b == "gorm:begin_transaction" || b == "gorm:commit_or_rollback_transaction" {
@@ -232,7 +257,7 @@ func apply(c Case) []stepResult {
 			return out
 		}
 		log = nil
-		proc.Execute(db.Session(&gorm.Session{NewDB: true}).Table("t"))
+		exec.Execute(db.Session(&gorm.Session{NewDB: true}).Table("t"))
 		sr := stepResult{fired: append([]fired(nil), log...)}
 		// the same pipeline run for a statement that already carries an error when it starts (a
 		// Scopes function or the caller called AddError): gorm's built-ins look at db.Error one by
@@ -240,8 +265,18 @@ func apply(c Case) []stepResult {
 		log = nil
 		pre := db.Session(&gorm.Session{NewDB: true}).Table("t")
 		_ = pre.AddError(errPre)
-		proc.Execute(pre)
+		exec.Execute(pre)
 		sr.firedErr = append([]fired(nil), log...)
+		// ... for a dry-run statement, and for one that names a model (Execute parses it first)
+		for _, st := range []*gorm.DB{
+			db.Session(&gorm.Session{NewDB: true, DryRun: true}).Table("t"),
+			db.Session(&gorm.Session{NewDB: true}).Model(&execModel{}),
+			db.Session(&gorm.Session{NewDB: true, SkipHooks: true}).Table("t"),
+		} {
+			log = nil
+			exec.Execute(st)
+			sr.firedOther = append(sr.firedOther, append([]fired(nil), log...))
+		}
 		out = append(out, sr)
 	}
 	return out
@@ -467,6 +502,11 @@ func checkCase(c Case) string {
 		if err := m.check(r.fired); err != nil {
 			return fmt.Sprintf("after step %d (%s): %v; fired order: %s", i+1, c.Ops[i], err, names(r.fired))
 		}
+		for k, other := range r.firedOther {
+			if fmt.Sprint(r.fired) != fmt.Sprint(other) {
+				return fmt.Sprintf("after step %d (%s): run %d (0 = dry-run statement, 1 = statement with a model, 2 = SkipHooks session) fired %s, the ordinary run fired %s: which registered callbacks run must not depend on the statement", i+1, c.Ops[i], k, names(other), names(r.fired))
+			}
+		}
 		if fmt.Sprint(r.fired) != fmt.Sprint(r.firedErr) {
 			return fmt.Sprintf("after step %d (%s): run for a statement that already carries an error fired %s, the ordinary run fired %s: not every registered callback ran exactly once", i+1, c.Ops[i], names(r.firedErr), names(r.fired))
 		}
@@ -475,7 +515,7 @@ func checkCase(c Case) string {
 	// the order of the same history without its Replace calls.
 	hasReplace := false
 	var without Case
-	without.Pipeline = c.Pipeline
+	without.Pipeline, without.Via = c.Pipeline, c.Via
 	wm := newModel(c.Pipeline)
 	for _, o := range c.Ops {
 		if o.Kind == "replace" && o.Match != "f" {
@@ -521,6 +561,9 @@ func nontrivial(c Case) bool {
 
 func classes(c Case, errored bool) []string {
 	cl := []string{"pipeline:" + c.Pipeline, fmt.Sprintf("len:%d", len(c.Ops))}
+	if c.Via != "" {
+		cl = append(cl, "registered-through:"+c.Via)
+	}
 	seen := map[string]bool{}
 	for _, o := range c.Ops {
 		k := o.Kind
@@ -941,7 +984,8 @@ func TestC17Random(t *testing.T) {
 			ops = append(ops, o)
 			m.step(o)
 		}
-		runCase(rt, Case{Pipeline: pl, Ops: ops}, "TestC17Random")
+		via := rapid.SampledFrom([]string{"", "", "session", "newdb", "tx"}).Draw(rt, "via")
+		runCase(rt, Case{Pipeline: pl, Ops: ops, Via: via}, "TestC17Random")
 	})
 }
 
@@ -983,9 +1027,9 @@ func witness(t *testing.T, cases ...Case) {
 func TestC17WitnessCycle(t *testing.T) {
 	for _, pl := range pipelines {
 		witness(t,
-			Case{pl, []Op{{Kind: "register", Name: "c1", After: "c2"}, {Kind: "register", Name: "c2", After: "c1"}}},
-			Case{pl, []Op{{Kind: "register", Name: "c1", Before: "c2"}, {Kind: "register", Name: "c2", Before: "c1"}}},
-			Case{pl, []Op{{Kind: "register", Name: "c1", After: "c2"}, {Kind: "register", Name: "c2", After: "c3"}, {Kind: "register", Name: "c3", After: "c1"}}},
+			Case{Pipeline: pl, Ops: []Op{{Kind: "register", Name: "c1", After: "c2"}, {Kind: "register", Name: "c2", After: "c1"}}},
+			Case{Pipeline: pl, Ops: []Op{{Kind: "register", Name: "c1", Before: "c2"}, {Kind: "register", Name: "c2", Before: "c1"}}},
+			Case{Pipeline: pl, Ops: []Op{{Kind: "register", Name: "c1", After: "c2"}, {Kind: "register", Name: "c2", After: "c3"}, {Kind: "register", Name: "c3", After: "c1"}}},
 		)
 	}
 }
@@ -994,8 +1038,8 @@ func TestC17WitnessCycle(t *testing.T) {
 func TestC17WitnessReplaceStar(t *testing.T) {
 	for _, pl := range pipelines {
 		witness(t,
-			Case{pl, []Op{{Kind: "register", Name: "c1", Before: "*"}, {Kind: "replace", Name: "c1"}}},
-			Case{pl, []Op{{Kind: "register", Name: "c1", After: "*"}, {Kind: "replace", Name: "c1"}}},
+			Case{Pipeline: pl, Ops: []Op{{Kind: "register", Name: "c1", Before: "*"}, {Kind: "replace", Name: "c1"}}},
+			Case{Pipeline: pl, Ops: []Op{{Kind: "register", Name: "c1", After: "*"}, {Kind: "replace", Name: "c1"}}},
 		)
 	}
 }
@@ -1004,8 +1048,8 @@ func TestC17WitnessReplaceStar(t *testing.T) {
 func TestC17WitnessForwardBefore(t *testing.T) {
 	for _, pl := range pipelines {
 		witness(t,
-			Case{pl, []Op{{Kind: "register", Name: "c1", Before: "c2"}, {Kind: "register", Name: "c2", After: "c3"}, {Kind: "register", Name: "c3"}}},
-			Case{pl, []Op{{Kind: "register", Name: "c1", Before: "c3"}, {Kind: "register", Name: "c2"}, {Kind: "register", Name: "c3", Before: "c2", After: "c2"}}},
+			Case{Pipeline: pl, Ops: []Op{{Kind: "register", Name: "c1", Before: "c2"}, {Kind: "register", Name: "c2", After: "c3"}, {Kind: "register", Name: "c3"}}},
+			Case{Pipeline: pl, Ops: []Op{{Kind: "register", Name: "c1", Before: "c3"}, {Kind: "register", Name: "c2"}, {Kind: "register", Name: "c3", Before: "c2", After: "c2"}}},
 		)
 	}
 }
@@ -1014,8 +1058,8 @@ func TestC17WitnessForwardBefore(t *testing.T) {
 func TestC17WitnessStarAnchor(t *testing.T) {
 	for _, pl := range pipelines {
 		witness(t,
-			Case{pl, []Op{{Kind: "register", Name: "c1", After: "*"}, {Kind: "register", Name: "c2", After: "c1"}, {Kind: "register", Name: "c3"}}},
-			Case{pl, []Op{{Kind: "register", Name: "c1", After: "c3"}, {Kind: "register", Name: "c2"}, {Kind: "register", Name: "c3", After: "*"}}},
+			Case{Pipeline: pl, Ops: []Op{{Kind: "register", Name: "c1", After: "*"}, {Kind: "register", Name: "c2", After: "c1"}, {Kind: "register", Name: "c3"}}},
+			Case{Pipeline: pl, Ops: []Op{{Kind: "register", Name: "c1", After: "c3"}, {Kind: "register", Name: "c2"}, {Kind: "register", Name: "c3", After: "*"}}},
 		)
 	}
 }
